@@ -36,7 +36,7 @@ use crate::temporal::date::{is_valid_date, FeelDate};
 use crate::temporal::errors::*;
 use crate::temporal::ym_duration::FeelYearsAndMonthsDuration;
 use crate::temporal::zone::FeelZone;
-use chrono::{DateTime, Datelike, FixedOffset, Local, LocalResult, NaiveDate, NaiveDateTime, NaiveTime, TimeZone, Utc};
+use chrono::{DateTime, FixedOffset, Local, LocalResult, NaiveDate, NaiveDateTime, NaiveTime, TimeZone, Utc};
 use dmntk_common::{DmntkError, Result};
 use regex::Regex;
 use std::cmp::Ordering;
@@ -543,23 +543,6 @@ pub fn subtract(me: &FeelDateTime, other: &FeelDateTime) -> Option<i64> {
     let other_date_opt = date_time_offset(other_date_tuple, other_time_tuple, other_offset);
     if let Some((me_date, other_date)) = me_date_opt.zip(other_date_opt) {
       return me_date.sub(other_date).num_nanoseconds();
-    }
-  }
-  None
-}
-
-fn weekday(me: &FeelDateTime) -> Option<u32> {
-  let me_date_tuple = me.0.as_tuple();
-  let me_time_tuple = ((me.1).0 as u32, (me.1).1 as u32, (me.1).2 as u32, (me.1).3 as u32);
-  let me_offset_opt = match &(me.1).4 {
-    FeelZone::Utc => Some(0),
-    FeelZone::Local => get_local_offset(me_date_tuple, me_time_tuple),
-    FeelZone::Offset(offset) => Some(*offset),
-    FeelZone::Zone(zone_name) => get_zone_offset(zone_name, me_date_tuple, me_time_tuple),
-  };
-  if let Some(me_offset) = me_offset_opt {
-    if let Some(me_date) = date_time_offset(me_date_tuple, me_time_tuple, me_offset) {
-      return Some(me_date.weekday().number_from_monday());
     }
   }
   None
